@@ -68,6 +68,11 @@ class C02(PropBase):
                 vals = [nested if "dict" in t["src"].split("[")[0] or t["src"] == "typing.Any" else {"$list": [copy.deepcopy(nested), {"$dict": [["e", {"$list": []}]]}]}]
                 if t["src"] == "list[dict]":
                     vals = [{"$list": [copy.deepcopy(nested)]}]
+            if rng.random() < 0.08:
+                # a mapping whose equality is order-sensitive: what comes back has the order that was sent
+                t = {"k": "raw", "src": rng.choice(["collections.OrderedDict[str, int]", "typing.OrderedDict[str, int]", "list[collections.OrderedDict[str, int]]"])}
+                od = {"$odict": [["zoe", 1], ["adam", 2], ["mia", rng.randint(0, 9)]]}
+                vals = [od if not t["src"].startswith("list") else {"$list": [od]}]
             if "twin" in sw:
                 # values that compare (and hash) equal to one already in the pool but are written
                 # differently: Decimal exponents, equal instants at another offset, 0.0 / -0.0
